@@ -595,6 +595,21 @@ def check_one(pid, tier):
         for k in kani_cc:
             if k["status"] == "error":
                 undec_reasons.append("kani harness %s did not finish: %s" % (k["harness"], str(k.get("detail", ""))[:120]))
+    # C20 (both tiers): the one repository function U6 leaves as an external_body shell, `ErrorMessages::from_u8`, is discharged
+    # against the same frozen table on the compiled zvt crate by the loop-free Kani harness K3 (all 256 codes: complete)
+    if pid == "C20":
+        try:
+            sys.path.insert(0, os.path.join(ROOT, "lib"))
+            import kani_codes
+            k3 = kani_codes.run()
+        except Exception as e:  # noqa
+            k3 = {"harness": "errcode_table", "status": "error", "detail": str(e)[:200]}
+        kani_cc.append(k3)
+        if k3["status"] == "error":
+            undec_reasons.append("kani harness errcode_table did not finish: %s" % str(k3.get("detail", ""))[:160])
+        elif k3["status"] == "failed" and k3.get("replay_exit_code") != 1:
+            undec_reasons.append("kani harness errcode_table failed but its input does not fail on the real code: %s" % str(k3.get("input")))
+            k3["status"] = "unconfirmed"
     hard = [u for u in undec_reasons if "supporting obligation" not in u]
     if hard:
         return undecided("; ".join(hard)[:600])
@@ -679,7 +694,7 @@ def check_one(pid, tier):
                 # found by the Kani cross-check itself
                 k = f["kani"]
                 if k.get("replay_exit_code") == 1:
-                    cex = {"engine": "kani 0.68 (cbmc) on the real zvt_builder crate", "harness": k["harness"], "harness_domain": k.get("domain"),
+                    cex = {"engine": k.get("engine", "kani 0.68 (cbmc) on the real zvt_builder crate"), "harness": k["harness"], "harness_domain": k.get("domain"),
                            "input": k.get("input"), "replay_cmd": k.get("replay_cmd"), "replay_exit_code": 1, "replay_output": k.get("replay_output")}
             else:
                 try:
